@@ -842,10 +842,13 @@ func (w *world) runExpire(c *conf, segs []seg, raw []*types.Transaction, height,
 			kind := "expired-tx-kept"
 			if isGroup {
 				kind = "expired-group-kept"
-				if g, _ := s.txs[0].GetTxGroup(); g != nil {
+				if g, _ := s.txs[0].GetTxGroup(); g != nil && len(g.Txs) > 0 {
 					// the members' Header (the 32-byte group hash) happens to parse as a
-					// Transactions message: IsExpire takes the group path over the decoded
-					// (empty) list
+					// Transactions message holding a (garbage) transaction: IsExpire takes the
+					// group path over the decoded list
+					kind = "expired-group-kept-when-group-hash-parses-as-nonempty-group"
+				} else if g != nil {
+					// empty decoded message: repaired in /repo c2f0f61, must not come back
 					kind = "expired-group-kept-when-group-hash-parses-as-protobuf"
 				}
 			}
@@ -890,7 +893,7 @@ func (w *world) buildSegs(c *conf, n int, height, blocktime int64, avoidDecodabl
 				opts[j] = txOpt{expire: w.expireFor(e, height, blocktime, txHeightOn), expired: e && gate}
 			}
 			_, ms := w.newGroup(opts)
-			if g, _ := ms[0].GetTxGroup(); g != nil && avoidDecodable {
+			if g, _ := ms[0].GetTxGroup(); g != nil && len(g.Txs) > 0 && avoidDecodable {
 				out.Stat("exp_regenerated_decodable_group", 1)
 				continue
 			}
@@ -967,18 +970,48 @@ func (w *world) expireCases(c *conf) {
 	}
 }
 
-// witness: an expired group whose head hash parses as protobuf survives CheckTxExpire.
-func (w *world) witness(c *conf) {
-	ms := w.decodableGroup(5)
-	if ms == nil {
-		out.Note("no decodable group hash found")
-		return
+// nonEmptyDecodableGroup rebuilds a group whose head hash parses as a Transactions message holding
+// one garbage transaction (about 1 in 6.5 million hashes; the first member's nonce below was found
+// by grinding for a few seconds). nil when the encoding changed and the hash no longer decodes so.
+func (w *world) nonEmptyDecodableGroup(expire int64) []*types.Transaction {
+	txs := []*types.Transaction{
+		{Execer: []byte("none"), Nonce: 2080378465, Expire: expire},
+		{Execer: []byte("none"), Nonce: 1999999999, Expire: expire},
 	}
+	g, err := types.CreateTxGroup(txs, 100000)
+	if err != nil {
+		return nil
+	}
+	if gg, _ := g.Txs[0].GetTxGroup(); gg == nil || len(gg.Txs) == 0 {
+		return nil
+	}
+	for _, t := range g.Txs {
+		w.info[t.Nonce] = &txInfo{expired: true}
+	}
+	return g.Txs
+}
+
+// witness: (a) regression of the repaired defect: an expired group whose head hash parses as an
+// *empty* protobuf message must be removed as a whole; (b) the remaining defect: an expired group
+// whose head hash parses as a message with one garbage transaction survives CheckTxExpire.
+func (w *world) witness(c *conf) {
 	single := w.newTx(txOpt{unsigned: true, expire: 5, expired: true})
 	live := w.newTx(txOpt{unsigned: true, expire: 0})
+	if ms := w.decodableGroup(5); ms != nil {
+		segs := []seg{{[]*types.Transaction{single}, true}, {ms, true}, {[]*types.Transaction{live}, false}}
+		w.runExpire(c, segs, nil, 10, 1600000000, "witness_empty_decodable_group_hash")
+	} else {
+		out.Note("no decodable group hash found")
+	}
+	ms := w.nonEmptyDecodableGroup(5)
+	if ms == nil {
+		out.Note("ground nonce no longer yields a group hash that decodes as a non-empty group")
+		out.Stat("witness_nonempty_not_reproducible", 1)
+		return
+	}
 	segs := []seg{{[]*types.Transaction{single}, true}, {ms, true}, {[]*types.Transaction{live}, false}}
-	w.runExpire(c, segs, nil, 10, 1600000000, "witness_decodable_group_hash")
-	out.Sample(fmt.Sprintf("CheckTxExpire(height 10): expired group (Expire=5) with head hash %x kept, because the hash parses as an empty Transactions message", ms[0].Header))
+	w.runExpire(c, segs, nil, 10, 1600000000, "witness_nonempty_decodable_group_hash")
+	out.Sample(fmt.Sprintf("CheckTxExpire(height 10): expired group (Expire=5) with head hash %x kept, because the hash parses as a Transactions message with one garbage transaction (Expire=0)", ms[0].Header))
 }
 
 func main() {
